@@ -213,6 +213,47 @@ def consumption_case(cond, N, second_var):
     return h
 
 
+def flatten_consumption_case(N, select_owner):
+    """flatten(x.kids) where the attribute is itself produced lazily: pulling j results reads a prefix of the inner collection"""
+
+    def h(ctx):
+        from krrood.entity_query_language.entity import flatten as _flatten
+
+        del LOG[:]
+        n = 1 + ctx.choice("n", N)
+        qs = [Q(ctx.fresh_int("q%d" % i)) for i in range(n)]
+        g = Gen("kids", qs)
+        o = P()
+        o.kids = g
+        x = let(P, [o], name="x")
+        f = _flatten(x.kids)
+        kk = ctx.fresh_int("k")
+        q = an(entity(x if select_owner else f, f.v > kk))
+        built_clean = g.taken == 0 and not LOG
+        full = [i for i in range(n) if qs[i].v > kk]
+        j = ctx.choice("j", n + 2)
+        got_n = 0
+        it = iter(q.evaluate())
+        for _ in range(j):
+            try:
+                r = next(it)
+            except StopIteration:
+                break
+            got_n += 1
+        ctx.observe(n, j, full, got_n, g.taken)
+        ctx.note("nonempty", got_n > 0)
+        v = {"construction-touches-nothing": built_clean}
+        v["as-many-results-as-asked-for-or-all"] = got_n == min(j, len(full))
+        if j == 0:
+            v["nothing-consumed-before-first-next"] = g.taken == 0
+        elif got_n == j:
+            # no read-ahead on the flattened collection: exactly up to the element that produced the j-th result
+            v["no-read-ahead-on-the-flattened-collection"] = g.taken == full[j - 1] + 1
+        return v
+
+    return h
+
+
 def cases(tier, seed):
     N = 2 if tier == "quick" else 3
     cs = []
@@ -246,6 +287,9 @@ def cases(tier, seed):
     for c in two:
         c = relabel_lits(c)
         cs.append(Case("consume entity(x|%s)|N<=%d" % (show(c), N), consumption_case(c, N, True), key="consume entity(x|%s)" % show(c), reset=eql_reset, validate=1, timeout=300, max_paths=100000))
+    for so in (False, True):
+        nm = "consume flatten(x.kids) over a lazily produced attribute|select=%s" % ("x" if so else "element")
+        cs.append(Case(nm + "|N<=%d" % (N + 1), flatten_consumption_case(N + 1, so), key=nm, reset=eql_reset, validate=1, timeout=300, max_paths=100000))
     return cs
 
 
@@ -256,7 +300,7 @@ def describe(tier):
         "attribute reads / method calls / truth tests, logging predicates; the log must be empty when construction returns. "
         "(b) data symbolic, k symbolic: pull k results and stop; they are a prefix of the full result list of a fresh identical query, the outermost lazy domain "
         "was advanced exactly to the element that produced the k-th result (no read-ahead), nothing at all is consumed before the first next(), and a second "
-        "evaluation started after abandoning the first is demand driven too. non-trivial = >= 2 feasible paths and a non-empty result",
+        "evaluation started after abandoning the first is demand driven too; flatten(x.kids) over an attribute that is itself a one-shot generator is read exactly up to the element that produced the last pulled result. non-trivial = >= 2 feasible paths and a non-empty result",
         bounds=dict(objects_per_domain="<= 3 (quick) / <= 4 (thorough) for one-variable shapes, <= 2/3 for two-variable shapes", values="unbounded integers", k="0..all+1"),
         outside=["consumption of inner (non-outermost) domains beyond 'nothing before the first next()'", "laziness of ORM/SQL evaluation"],
         assumptions=["the engine's loop order puts x outermost for the shapes of part (b) (x is the left-most variable)"],
